@@ -105,7 +105,18 @@ func (x *Exec) call(e *ast.CallExpr, st *State) Value {
 		x.checkCallbackLit(lit, st)
 	}
 	res := x.callWith(e, st, recvVal, argVals)
+	async := false
+	if fn := x.calleeOf(e); fn != nil {
+		if c := x.eng.contractFor(fn); c != nil && c.Opts["async"] == "true" {
+			// the callee only schedules the callback (time.AfterFunc): it does
+			// not run before the call returns
+			async = true
+		}
+	}
 	for _, lit := range lits {
+		if async {
+			continue
+		}
 		m := x.modifiedIn(lit.Body)
 		x.havoc(st, m)
 	}
@@ -460,11 +471,24 @@ func (x *Exec) callWith(e *ast.CallExpr, st *State, recvVal Value, args []Value)
 	fn := x.calleeOf(e)
 	resT := x.info.TypeOf(e)
 	if fn == nil {
-		// call through a function value
-		if id, ok := unparen(e.Fun).(*ast.Ident); ok {
-			if v, ok := x.info.ObjectOf(id).(*types.Var); ok {
-				if fv, ok := st.vars[v].(Fv); ok && fv.Lit != nil {
-					_ = fv
+		// call through a function-typed struct field: a contract may be given
+		// for the field (`//gvc:func field:T.f`), an assumption about whatever
+		// function is stored there
+		if sel, ok := unparen(e.Fun).(*ast.SelectorExpr); ok {
+			if s := x.info.Selections[sel]; s != nil && s.Kind() == types.FieldVal {
+				if fv, ok := s.Obj().(*types.Var); ok {
+					if sig, ok := fv.Type().Underlying().(*types.Signature); ok {
+						rt := s.Recv()
+						if p, ok := rt.Underlying().(*types.Pointer); ok {
+							rt = p.Elem()
+						}
+						key := "field:" + typeKey(rt) + "." + fv.Name()
+						if c := x.eng.cs.Funcs[key]; c != nil {
+							synth := types.NewFunc(token.NoPos, fv.Pkg(), fv.Name(), sig)
+							x.assumes["function stored in field "+trimPkg(typeKey(rt))+"."+fv.Name()+" satisfies its field contract"] = true
+							return x.applyContract(e, st, synth, c, nil, args, resT)
+						}
+					}
 				}
 			}
 		}
@@ -490,6 +514,10 @@ func (x *Exec) callWith(e *ast.CallExpr, st *State, recvVal Value, args []Value)
 			}
 		}
 		return Sc{x.newError(st, wrapped)}
+	case "(*sync.Mutex).Lock", "(*sync.Mutex).Unlock", "(*sync.RWMutex).Lock", "(*sync.RWMutex).Unlock":
+		if x.monitorCall(e, st, strings.HasSuffix(key, ".Lock")) {
+			return Tu{}
+		}
 	case "errors.New":
 		return Sc{x.newError(st, nil)}
 	case "errors.Join":
